@@ -172,7 +172,12 @@ func (g *pgen) goal(pi int, nv *int, maxv, depth int) J {
 			*nv++
 			return jt.C("is", jt.V(*nv), jt.A("foo"))
 		default:
-			return jt.C("catch", g.goal(pi, nv, maxv, 1), jt.V(1+g.r.Intn(*nv+1)), jt.A("true"))
+			inner := g.goal(pi, nv, maxv, 1)
+			k := 1 + g.r.Intn(*nv+1) // an old variable or a new one
+			if k > *nv {
+				*nv = k
+			}
+			return jt.C("catch", inner, jt.V(k), jt.A("true"))
 		}
 	case k == 18 && g.feat["db"] && len(g.dyn) > 0:
 		d := g.dyn[g.r.Intn(len(g.dyn))]
